@@ -46,6 +46,20 @@ func c09(e *Env) {
 	if len(names) < 4 {
 		ob1.Unknown("-", fmt.Sprintf("only %d never-returning library helpers found (Fail, Failf and the per-type Fail/Failf methods expected)", len(names)))
 	}
+	// every Fail / Failf of the library (exported names: package functions and the methods of Task, Process, ports,
+	// IPs, Workflow) is such a helper: one that can return lets the failing caller continue
+	nFail := 0
+	for _, fn := range p.LibFuncs {
+		if (fn.Name() == "Fail" || fn.Name() == "Failf") && fn.Blocks != nil && fn.Synthetic == "" {
+			nFail++
+			if !p.NoRet[fn] {
+				ob1.Fail(e.where(fn.Blocks[0].Instrs[0]), core.FuncName(fn)+" can return: the code that reports a fatal condition through it carries on (an unconnected port, a duplicate port name, a missing remote port are then ignored)")
+			}
+		}
+	}
+	if nFail < 10 {
+		ob1.Unknown("-", fmt.Sprintf("only %d Fail/Failf helpers found in the library (18 on the pinned tree)", nFail))
+	}
 	top := p.Func("Fail")
 	if top == nil || !p.NoRet[top] {
 		ob1.Fail("common.go", "the package-level Fail is not a never-returning function any more")
